@@ -303,6 +303,7 @@ class Simulator(EventProducer, SimulatorInterface, Generic[TIME]):
         self._replication = replication
         self._model = model
         self._simulator_time = replication.start_sim_time
+        model.output_statistics().clear()
         model.construct_model()
         self._run_state = RunState.INITIALIZED
         self._replication_state = ReplicationState.INITIALIZED
